@@ -9,7 +9,10 @@ CLAIM = ("Proved in Coq for the model: LogSpecification::parse is total (it cann
          "identically for every level and target (C17_toml_roundtrip, semantic half: the TOML text syntax itself is library behaviour "
          "and is validated by the correspondence check, not proved). Tied to the code by the correspondence check: grammar-generated, "
          "malformed and arbitrary Unicode strings, builder-made specifications; compared: Ok/Err, carried filters, Display text, "
-         "re-parsed filters, filters after a real to_toml/from_toml round trip.")
+         "re-parsed filters, filters after a real to_toml/from_toml round trip, and the specfile route itself "
+         "(Logger::build_with_specfile: a first start writes the file, a second start given another specification reads it and must decide, "
+         "on a grid of levels and targets around the filter names, like a logger that got the specification directly). LogSpecBuilder incl. "
+         "from_module_filters, insert_modules_from, the level constructors and the TryFrom impls go through the same observation.")
 THEOREMS = ["C17_parse_exact", "C17_parse_ok_iff", "C17_display_roundtrip", "C17_toml_roundtrip"]
 TRUSTED = ["modelled, not verified: str::split/trim/char::is_whitespace/to_lowercase (Unicode tables pinned in DESIGN appendix D), "
            "Vec::sort_by stability, HashMap/BTreeMap, the toml crate's text syntax, Regex::new (literal patterns only)"]
@@ -39,9 +42,9 @@ def search(rng, tier, disagreeing):
 
 def fields(obs):
     t = obs.split(" ")
-    if len(t) != 7:
+    if len(t) != 8:
         return None
-    return {"ok": t[0], "f": t[1][1:], "tf": t[2], "d": t[3], "r": t[4][1:], "rf": t[5][2:], "t": t[6][1:]}
+    return {"ok": t[0], "f": t[1][1:], "tf": t[2], "d": t[3], "r": t[4][1:], "rf": t[5][2:], "t": t[6][1:], "sf": t[7][2:]}
 
 
 def unique_names(f):
@@ -72,6 +75,9 @@ def oracle(body, model, impl):
         # the TOML form lists the modules in key order: equal decisions = the same set of filters
         if fi["t"] != "-" and canon(fi["t"]) != canon(fi["f"]):
             return "fail toml-roundtrip f=%s read-back=%s" % (fi["f"], fi["t"])
+        # a logger started on the specfile that an earlier start wrote decides like the specification itself
+        if fi["sf"] not in ("-", "same"):
+            return "fail specfile-roundtrip f=%s %s" % (fi["f"], fi["sf"])
     return "pass"
 
 
